@@ -27,6 +27,27 @@
 //     writers, builders, transaction buffers' owners ...) are listed in confinedTypes.
 //   - taking the address of a field (&x.f) counts as a read; writes through such pointers and
 //     through method values / reflection are not seen.
+//   - maps: `m[k] = v`, `m[k]++` and `delete(m, k)` are WRITES of the field that holds the map,
+//     `m[k]`, `range m`, `len(m)` are reads (a map write under a shared lock aborts the process:
+//     "concurrent map iteration and map write").
+//   - a fresh local (x := &T{...} / New*()) stops being private at the first statement that
+//     hands it to other code (call argument, stored into a field / map / slice / composite
+//     literal / channel, operand of `go`, captured by a `go` literal): accesses through it
+//     after that statement are shared accesses (walker.escape).
+//   - pkg/replication, primary side (Primary, ReplicaSession, heartbeatManager, WALBatcher,
+//     WALEntriesBuffer, CompressionManager, Manager): roots are the exported methods of
+//     replication.Primary (gRPC handlers StreamWAL/Acknowledge/NegativeAcknowledge — started
+//     from the network, so without the no-close assumption; the WAL observer callbacks
+//     OnWALEntryWritten/OnWALBatchWritten/OnWALSync with wal.WAL.mu held exclusively, which are
+//     also reached through the interface call in wal.notify*Observers from every engine write
+//     root with the real set; OnWALRotated; the info accessors; Close exclusive) and of
+//     replication.Manager (Status, GetNodeInfo, Stop; Start is pre-publication), plus the
+//     goroutines: ReplicaSession.sendLoop (one per session), heartbeatManager.monitorLoop,
+//     sessionContext's watcher, the gRPC Serve goroutine.  The replica side (replica.go,
+//     state.go) is left out: lockExcludeFiles.  Values that are gRPC / protobuf objects are
+//     not module types: no accesses are recorded inside them.
+//   - allow list: lockAllow; an entry whose reason starts with FINDING is a genuine
+//     unprotected access in kevo, reported, not a refinement.
 package main
 
 import (
@@ -49,6 +70,15 @@ func init() { extraGenerators = append(extraGenerators, genLocks) }
 var lockPkgs = []string{
 	"pkg/engine/storage", "pkg/engine", "pkg/memtable", "pkg/compaction", "pkg/engine/compaction",
 	"pkg/stats", "pkg/transaction", "pkg/sstable", "pkg/wal", "pkg/config", "pkg/engine/iterator",
+	"pkg/replication",
+}
+
+// files of covered packages that are left out (functions declared there are not analysed: a
+// call into them has no lock effect and no accesses, exactly like a call into an uncovered
+// package), with the reason
+var lockExcludeFiles = map[string]string{
+	"pkg/replication/replica.go": "replica side (state machine of one goroutine plus receive goroutines joined by a WaitGroup: needs goroutine confinement and join edges, which the table does not have); not part of the primary's write path",
+	"pkg/replication/state.go":   "replica side (StateTracker, used by Replica only)",
 }
 
 // receiver types whose exported methods are roots (with the locks held on entry)
@@ -70,6 +100,34 @@ var lockRoots = []struct {
 	{"memtable.Iterator", ""},
 	{"memtable.IteratorAdapter", ""},
 	{"engine/iterator.Factory", ""},
+	// replication, primary side (entry sets of the individual methods: rootEntry below)
+	{"replication.Primary", ""},
+	{"replication.Manager", ""},
+}
+
+// rootEntry: entry lock set of single root methods where it differs from the type's default
+// ({quiesce shared} + lockRoots.held shared).
+//   - the WAL observer callbacks run on the client's write path, called by the WAL from inside
+//     Append/AppendBatch/Sync with WAL.mu held exclusively (pkg/wal/wal.go: every
+//     notify*Observers call stands between w.mu.Lock() and the deferred Unlock).  They are ALSO
+//     reached through the interface call in wal.notify*Observers with the caller's real set; the
+//     explicit root keeps them in the table when no engine root reaches them.
+//   - the gRPC handlers of the replication service are started by the gRPC server, one goroutine
+//     per call, whenever a replica decides to call: like the engine's own goroutines they do NOT
+//     hold the no-close assumption (network: true), so Primary.Close is checked against them.
+type rootSpec struct {
+	held    string // extra lock held on entry
+	mode    byte   // 'S' | 'X'
+	network bool   // started from the network: not covered by "no Close during client calls"
+}
+
+var rootEntry = map[string]rootSpec{
+	"replication.Primary.OnWALEntryWritten":   {held: "wal.WAL.mu", mode: 'X'},
+	"replication.Primary.OnWALBatchWritten":   {held: "wal.WAL.mu", mode: 'X'},
+	"replication.Primary.OnWALSync":           {held: "wal.WAL.mu", mode: 'X'},
+	"replication.Primary.StreamWAL":           {network: true},
+	"replication.Primary.Acknowledge":         {network: true},
+	"replication.Primary.NegativeAcknowledge": {network: true},
 }
 
 // Lifecycle methods. The property excludes Close running concurrently with client calls; that
@@ -108,7 +166,24 @@ var confinedTypes = map[string]string{
 }
 
 // locations deliberately left out of the table, each with the reason (counted in the evidence)
-var lockAllow = map[string]string{}
+// An entry whose reason starts with FINDING is NOT a refinement of the translator: it is a
+// genuine unprotected access in kevo (two conflicting accesses, no common lock), kept out of the
+// table only so that the lemma about the remaining locations still compiles.  The report lists
+// them under "FINDING"; gen_findings in Locks.v counts them.
+var lockAllow = map[string]string{
+	"replication.ReplicaSession.Connected": "FINDING data race: written under ReplicaSession.mu only (sendLoop primary.go:135, send primary.go:108, " +
+		"sendToReplica primary.go:625, checkSessions heartbeat.go:126/148) and under Primary.mu only (Close primary.go:945); read WITHOUT the session mutex by " +
+		"broadcastToReplicas primary.go:545 and sendToReplica primary.go:563 (client write path: Primary.mu shared + WAL.mu), checkSessions heartbeat.go:116 " +
+		"(no lock at all), GetReplicaInfo primary_info.go:14, getPrimaryStatus manager.go:200, getSessionIDFromContext primary.go:832, " +
+		"maybeManageWALRetention primary.go:891 (Primary.mu shared)",
+	"replication.ReplicaSession.Active": "FINDING data race: same pattern as Connected; written under ReplicaSession.mu only (send primary.go:109, checkSessions " +
+		"heartbeat.go:127/149), read without it by broadcastToReplicas primary.go:545, sendToReplica primary.go:563, checkSessions heartbeat.go:116, " +
+		"GetReplicaInfo primary_info.go:21, getPrimaryStatus manager.go:203/211, maybeManageWALRetention primary.go:891",
+	"replication.ReplicaSession.LastAckSequence": "FINDING data race: written by updateSessionAck primary.go:862 (Acknowledge handler; Primary.mu and ReplicaSession.mu " +
+		"exclusive), read with NO lock by the StreamWAL handler's ticker loop primary.go:379/381 (another goroutine of the same session)",
+	"replication.ReplicaSession.LastActivity": "FINDING data race (a three-word time.Time): written under ReplicaSession.mu only by the session's sender goroutine " +
+		"(sendLoop primary.go:141), read under Primary.mu shared only by Manager.Status -> getPrimaryStatus manager.go:212/216",
+}
 
 // ---------------------------------------------------------------------------------------
 // loading: every package of the module is type-checked once, by us, so that objects are
@@ -422,6 +497,31 @@ func (w *walker) isFreshBase(e ast.Expr) bool {
 	return false
 }
 
+// escape: a fresh local that is handed to other code (call argument, stored in a field / map /
+// composite literal / channel, operand of a go statement, captured by a go literal) is shared
+// from that statement on: later accesses through it are accesses to shared state
+// (StreamWAL: `session := &ReplicaSession{...}` ... `p.registerReplicaSession(session)` ...
+// `session.LastAckSequence`).  Method calls ON the local do not publish it.
+func (w *walker) escape(e ast.Expr) {
+	for {
+		switch x := e.(type) {
+		case *ast.ParenExpr:
+			e = x.X
+			continue
+		case *ast.UnaryExpr:
+			if x.Op == token.AND {
+				e = x.X
+				continue
+			}
+		case *ast.Ident:
+			if o := w.info().Uses[x]; o != nil && w.fresh[o] {
+				delete(w.fresh, o)
+			}
+		}
+		return
+	}
+}
+
 func (w *walker) fieldOf(sel *ast.SelectorExpr) *types.Var {
 	if s, ok := w.info().Selections[sel]; ok && s.Kind() == types.FieldVal {
 		if v, ok := s.Obj().(*types.Var); ok {
@@ -475,8 +575,10 @@ func (w *walker) expr(e ast.Expr, write bool) {
 					w.expr(kv.Key, false)
 				}
 				w.expr(kv.Value, false)
+				w.escape(kv.Value)
 			} else {
 				w.expr(el, false)
+				w.escape(el)
 			}
 		}
 	case *ast.TypeAssertExpr:
@@ -647,6 +749,7 @@ func (w *walker) call(c *ast.CallExpr) {
 			default:
 				for _, a := range c.Args {
 					w.expr(a, false)
+					w.escape(a) // append(x.list, fresh)
 				}
 			}
 			return
@@ -699,6 +802,7 @@ func (w *walker) call(c *ast.CallExpr) {
 			}
 		}
 		w.expr(a, false)
+		w.escape(a)
 	}
 	// callees
 	callees := w.an.resolve(info, c)
@@ -875,6 +979,7 @@ func (w *walker) assign(lhs []ast.Expr, rhs []ast.Expr, define bool) {
 			}
 		}
 		w.expr(r, false)
+		w.escape(r)
 	}
 	for i, l := range lhs {
 		if id, ok := l.(*ast.Ident); ok {
@@ -960,14 +1065,25 @@ func (w *walker) stmt(s ast.Stmt) bool {
 	case *ast.SendStmt:
 		w.expr(x.Chan, false)
 		w.expr(x.Value, false)
+		w.escape(x.Value)
 	case *ast.GoStmt:
 		for _, a := range x.Call.Args {
 			w.expr(a, false)
+			w.escape(a)
 		}
 		if sel, ok := x.Call.Fun.(*ast.SelectorExpr); ok {
 			if _, isSel := w.info().Selections[sel]; isSel {
 				w.expr(sel.X, false)
+				w.escape(sel.X)
 			}
+		}
+		if l, ok := x.Call.Fun.(*ast.FuncLit); ok {
+			ast.Inspect(l.Body, func(n ast.Node) bool {
+				if id, ok := n.(*ast.Ident); ok {
+					w.escape(id)
+				}
+				return true
+			})
 		}
 		w.an.goStmt(w, x)
 	case *ast.DeferStmt:
@@ -1204,7 +1320,18 @@ func heldCoq(k string) string {
 }
 
 func genLocks() (string, string) {
-	base, _ := importer.ForCompiler(fset, "source", nil).(types.ImporterFrom)
+	if os.Getenv("GOFACTS_NO_ALLOW") != "" {
+		// development aid: show what the table says without the allow list (e.g. on a tree that
+		// carries a proposed fix for the FINDING entries)
+		lockAllow = map[string]string{}
+	}
+	// packages from outside the module come from the importer the other generators use (its
+	// cache already holds gRPC/protobuf, type-checked from source for ApplierFacts.v: doing that
+	// a second time costs minutes); the module's own packages are type-checked here, once
+	base, _ := imp.(types.ImporterFrom)
+	if base == nil {
+		base, _ = importer.ForCompiler(fset, "source", nil).(types.ImporterFrom)
+	}
 	limp = &modImporter{base: base, cache: map[string]*lpkg{}, busy: map[string]bool{}}
 	an := &lockAn{pkgs: map[string]*lpkg{}, funcs: map[*types.Func]*fnInfo{}, owner: map[*types.Var]string{},
 		alias: map[string]string{}, memo: map[string]lockSet{}, active: map[string]bool{}, rows: map[accRow]bool{},
@@ -1241,6 +1368,9 @@ func genLocks() (string, string) {
 			for _, d := range f.Decls {
 				fd, ok := d.(*ast.FuncDecl)
 				if !ok || fd.Body == nil {
+					continue
+				}
+				if _, skip := lockExcludeFiles[p.rel+"/"+filepath.Base(fset.Position(fd.Pos()).Filename)]; skip {
 					continue
 				}
 				obj, ok := p.info.Defs[fd.Name].(*types.Func)
@@ -1359,6 +1489,14 @@ func genLocks() (string, string) {
 				if r.held != "" {
 					h[r.held] = 'S'
 				}
+				if sp, ok := rootEntry[tn+"."+fi.obj.Name()]; ok {
+					if sp.network {
+						delete(h, quiesce)
+					}
+					if sp.held != "" {
+						h[sp.held] = sp.mode
+					}
+				}
 				roots = append(roots, fi.name)
 				an.analyse(fi, h)
 			}
@@ -1394,7 +1532,7 @@ func genLocks() (string, string) {
 	}
 	nSkippedRO, nAllowed, nFlag := 0, 0, 0
 	var roNames []string
-	var allowed []string
+	var allowed, findings []string
 	for _, loc := range locs {
 		rs := byLoc[loc]
 		sort.Slice(rs, func(i, j int) bool {
@@ -1421,7 +1559,18 @@ func genLocks() (string, string) {
 		if why, ok := lockAllow[loc]; ok {
 			nAllowed++
 			allowed = append(allowed, loc)
-			fmt.Fprintf(&rep, "ALLOWED %s: %s\n\n", loc, why)
+			if strings.HasPrefix(why, "FINDING") {
+				findings = append(findings, loc)
+			}
+			fmt.Fprintf(&rep, "ALLOWED %s: %s\n", loc, why)
+			for _, r := range rs {
+				kind := "read "
+				if r.write {
+					kind = "WRITE"
+				}
+				fmt.Fprintf(&rep, "    %s %-60s {%s}  %s\n", kind, r.fn, r.held, r.pos)
+			}
+			rep.WriteString("\n")
 			continue
 		}
 		// report: candidate locks
@@ -1519,8 +1668,14 @@ func genLocks() (string, string) {
 	sort.Strings(als)
 	rep.WriteString("\nlock aliases:\n" + strings.Join(als, "\n") + "\n")
 	rep.WriteString("\nlocations never written by reachable code (initialised before publication, not listed):\n    " + strings.Join(roNames, "\n    ") + "\n")
-	fmt.Fprintf(&rep, "\nsummary: locations=%d rows=%d unprotected=%d allowed=%d read_only_after_publication=%d order_edges=%d\n",
-		len(locs)-nSkippedRO-nAllowed, len(table), nFlag, nAllowed, nSkippedRO, len(el))
+	var exl []string
+	for f, why := range lockExcludeFiles {
+		exl = append(exl, "    "+f+": "+why)
+	}
+	sort.Strings(exl)
+	rep.WriteString("\nfiles of covered packages left out:\n" + strings.Join(exl, "\n") + "\n")
+	fmt.Fprintf(&rep, "\nsummary: locations=%d rows=%d unprotected=%d allowed=%d findings=%d read_only_after_publication=%d order_edges=%d\n",
+		len(locs)-nSkippedRO-nAllowed, len(table), nFlag, nAllowed, len(findings), nSkippedRO, len(el))
 	if len(os.Args) >= 3 {
 		os.WriteFile(filepath.Join(os.Args[2], "locks_report.txt"), []byte(rep.String()), 0644)
 	}
@@ -1552,6 +1707,13 @@ func genLocks() (string, string) {
 	}
 	b.WriteString("].\n\n(* locations left out on purpose (reason in gofacts/locks.go, lockAllow) *)\nDefinition gen_allowed : list string := [")
 	for i, a := range allowed {
+		if i > 0 {
+			b.WriteString("; ")
+		}
+		b.WriteString(coqStr(a))
+	}
+	b.WriteString("].\n(* of these: genuine unprotected accesses in kevo (FINDING entries), not translator refinements *)\nDefinition gen_findings : list string := [")
+	for i, a := range findings {
 		if i > 0 {
 			b.WriteString("; ")
 		}
